@@ -36,8 +36,8 @@ SHAPES = [(), (1,), (2,), (3,), (1, 2), (2, 1), (2, 2), (2, 3), (2, 1, 2)]
 DPS = {'quick': [(1, 1), (2, 1), (3, 2), (4, 3)], 'thorough': [(1, 1), (2, 1), (3, 2), (4, 3), (5, 2), (3, 3)]}
 OPS = {'add': operator.add, 'sub': operator.sub, 'mul': operator.mul, 'div': operator.truediv}
 IOPS = {'add': operator.iadd, 'sub': operator.isub, 'mul': operator.imul, 'div': operator.itruediv}
-SCALAR_KINDS = ['int', 'float', 'complex', 'np.float64', 'np.float32', 'np.int64', 'np.complex128']
-ARRAY_KINDS = ['arr.float', 'arr.int', 'arr.complex']
+SCALAR_KINDS = ['int', 'float', 'complex', 'np.float64', 'np.float32', 'np.int64', 'np.complex128', 'np.uint8', 'np.int8', 'bool']
+ARRAY_KINDS = ['arr.float', 'arr.int', 'arr.complex', 'arr.uint8']
 
 
 def bounds(tier):
@@ -86,6 +86,12 @@ def make_const(kind, shape, off, divisor=False):
         return np.float32([0.5, -0.5, 2.0, 0.25][off % 4]) if divisor == 'pow2' else np.float32([1.5, -0.5, 2.0, 0.25][off % 4])
     if kind == 'np.int64':
         return np.int64([2, -1, 4, -2][off % 4])
+    if kind == 'np.uint8':
+        return np.uint8([2, 1, 4, 8][off % 4])
+    if kind == 'np.int8':
+        return np.int8([2, -1, 4, -128][off % 4])
+    if kind == 'bool':
+        return True
     if kind == 'np.complex128':
         return np.complex128(complex(0.0, float(P2[off % len(P2)]))) if divisor == 'pow2' else np.complex128(complex(alpha[off % len(alpha)], DY[(off + 3) % len(DY)]))
     n = int(np.prod(shape, dtype=int))
@@ -94,6 +100,8 @@ def make_const(kind, shape, off, divisor=False):
     if kind == 'arr.int':
         ints = [2, -1, 4, -2, 1, 8, -8, -4] if divisor == 'pow2' else [2, -1, 4, -2, 1, 3, -3, -4]
         return np.array([ints[(off + i) % 8] for i in range(n)], dtype=np.int64).reshape(shape)
+    if kind == 'arr.uint8':
+        return np.array([[2, 1, 4, 8, 16, 1, 2, 4][(off + i) % 8] for i in range(n)], dtype=np.uint8).reshape(shape)
     if kind == 'arr.complex':
         if divisor == 'pow2':
             return (1j * seq(P2, n, off)).reshape(shape)
